@@ -205,6 +205,39 @@ def part(rep, pid, tier='quick'):
     t = merge(rep, pmap(_work, [(list(range(i, n, nchunks)),) for i in range(nchunks)]),
               part='cross-API call-order pass: %d events, %d calls; per event every ordered pair (any public function on that event, then a function of this check) '
                    'from a restored state, second answer vs the same call made first' % (n, ncalls))
+    interpreter_modes(rep, pid)
     rep.assumptions.append('cross-API pass: one group of calls per event code (same event through every public function that takes one); pairs across different events are '
                            'left to the per-check call-order passes')
     return t
+
+
+def interpreter_modes(rep, pid):
+    """the same calls, each made first in a fresh interpreter started normally, with -O and with -OO: the answers must not depend on assert statements or
+    docstrings being present"""
+    import subprocess, sys
+    res = {}
+    for flag in ('', '-O', '-OO'):
+        cmd = [sys.executable] + ([flag] if flag else []) + ['-m', 'vlib.interprun', pid]
+        p = subprocess.run(cmd, cwd=common.VERIF, env=dict(os.environ, PYTHONHASHSEED='0'), capture_output=True, text=True)
+        line = [l for l in p.stdout.splitlines() if l.startswith('INTERP-RESULT ')]
+        if p.returncode != 0 or not line:
+            raise common.HarnessError('interpreter-mode pass failed to run (%s): %s' % (flag or 'default', (p.stderr or p.stdout)[-800:]))
+        res[flag] = json.loads(line[-1][len('INTERP-RESULT '):])
+    if res['-O']['optimize'] != 1 or res['-OO']['optimize'] != 2:
+        raise common.HarnessError('interpreter flags did not take effect')
+    acc = Acc()
+    base = res['']['answers']
+    for flag in ('-O', '-OO'):
+        other = res[flag]['answers']
+        if len(other) != len(base):
+            raise common.HarnessError('interpreter-mode pass: call lists differ')
+        for (c0, a0), (c1, a1) in zip(base, other):
+            acc.n += 1
+            if a0 != a1:
+                fn = c0.split(',')[0].strip("('").split(':')[-1].split('.')[-1]
+                acc.bad('answer-depends-on-interpreter-mode:%s:%s' % (flag, fn), dict(call=c0, interpreter=flag), 'python %s gives %r, the default interpreter %r' % (flag, a1, a0))
+            else:
+                acc.nontrivial += 1
+    if base:
+        acc.samples.append(dict(interpreter_modes=['default', '-O', '-OO'], call=base[0][0], answer=base[0][1]))
+    merge(rep, [acc.pack()], part='interpreter modes: every cross-API call of this check made first under python, python -O and python -OO (%d calls)' % len(base))
